@@ -152,7 +152,7 @@ def execute(spec):
         v["features"] = sorted(set(v["features"]) | set(spec.get("tags", [])))
         v["input"] = spec["text"]
     stats = dict(r["stats"])
-    fired = sum(v for k, v in stats.items() if k.startswith("fault:"))
+    fired = sum(v for k, v in stats.items() if k.startswith("fault:"))  # faults that actually landed
     for t in spec.get("tags", []):
         if t.startswith(("components:", "mix:", "arch:")) or t == "non_generable":
             stats["tag:" + t] = 1
